@@ -45,9 +45,10 @@ Section Frame.
                               epoch g' x = 1 /\ heap g' x = heap g x.
   Hypothesis Hpub : forall x, published g c pend x -> published g' c pend' x.
   Hypothesis Hchain : forall x s, In x c ->
-     outward s (heap g' x) = outward s (heap g x) \/
-     (ltag (outward s (heap g x)) < ltag (outward s (heap g' x)) /\
-      forall n, second s c n x -> ast (anc g) = push_status s -> lptr (outward s (heap g' x)) = n).
+     epoch g' x = epoch g x /\
+     (outward s (heap g' x) = outward s (heap g x) \/
+      (ltag (outward s (heap g x)) < ltag (outward s (heap g' x)) /\
+       forall n, second s c n x -> ast (anc g) = push_status s -> lptr (outward s (heap g' x)) = n)).
   Hypothesis Htag : forall x s, published g c pend x ->
      ltag (outward s (heap g x)) <= ltag (outward s (heap g' x)).
 
@@ -76,7 +77,7 @@ Section Frame.
     outward s (heap g p) = pn \/ lnk_lt g s p pn ->
     outward s (heap g' p) = pn \/ lnk_lt g' s p pn.
   Proof.
-    intros Hp H. unfold lnk_lt in *. destruct (Hchain p s Hp) as [E|[E _]].
+    intros Hp H. unfold lnk_lt in *. destruct (Hchain p s Hp) as [_ [E|[E _]]].
     - rewrite E. exact H.
     - right. destruct H as [H|H]; [rewrite <- H|]; lia.
   Qed.
@@ -99,18 +100,20 @@ Section Frame.
     - intros (A & B & C). split; [apply Jk_frame; [ow|auto]|]. split; [apply stab_frame; exact B|exact C].
     - intros (A & B & C). split; [apply Jk_frame; [ow|auto]|]. split; [apply stab_frame; exact B|exact C].
     - intros (A & B & C & D & E). split; [apply Jk_frame; [ow|auto]|]. split; [apply stab_frame; exact B|].
-      split; [exact C|]. split; [exact D|]. intros EA. apply lnk_chain_frame; [|apply E; exact EA].
-      apply (second_in _ _ _ _ (C EA)).
+      split; [exact C|]. split; [exact D|]. intros EA. destruct (E EA) as [E1 E2].
+      pose proof (proj2 (second_in _ _ _ _ (C EA))) as Hp. split; [apply lnk_chain_frame; assumption|].
+      rewrite (proj1 (Hchain _ s Hp)). exact E2.
     - intros (A & B & C & D & P & E). split; [apply Jk_frame; [ow|auto]|]. split; [apply stab_frame; exact B|].
       split; [exact C|]. split; [exact D|]. split; [apply Hpub; exact P|].
-      destruct E as [[EA E]|E].
-      + destruct (lnk_chain_frame s (lptr prev) pn (proj2 (second_in _ _ _ _ (C EA))) (or_introl E)) as [E'|E'];
-          [left; split; assumption|right; exact E'].
+      destruct E as [(EA & E & Ee)|E].
+      + pose proof (proj2 (second_in _ _ _ _ (C EA))) as Hp.
+        destruct (lnk_chain_frame s (lptr prev) pn Hp (or_introl E)) as [E'|E'];
+          [left; split; [assumption|split; [assumption|rewrite (proj1 (Hchain _ s Hp)); exact Ee]]|right; exact E'].
       + right. unfold lnk_lt in *. pose proof (Htag (lptr prev) s P). lia.
     - intros (A & B & C). split; [apply Jk_frame; [ow|auto]|]. split; [apply stab_frame; exact B|].
       intros EA n p r Hv. specialize (C EA n p r Hv).
       assert (Hp : In p c). { apply (in_vw s). rewrite Hv. cbn; auto. }
-      destruct (Hchain p s Hp) as [E|[_ E]]; [rewrite E; exact C|].
+      destruct (Hchain p s Hp) as [_ [E|[_ E]]]; [rewrite E; exact C|].
       apply E; [exists r; exact Hv|]. destruct B as (_ & B & _). rewrite <- EA. exact B.
   Qed.
 End Frame.
@@ -178,7 +181,7 @@ Section Acas.
     - intros (A & B & C & D & P & E). split; [apply Jk_acas; [ow|auto]|]. split; [apply stab_acas; exact B|].
       split; [intros E'; exfalso; exact (snap_acas_ne lrs (proj1 B) E')|]. split; [exact D|].
       split; [apply published_acas; exact P|]. right. unfold lnk_lt. rewrite Hheap.
-      destruct E as [[EA E]|E]; [|exact E]. exfalso.
+      destruct E as [(EA & E & _)|E]; [|exact E]. exfalso.
       destruct B as (_ & B & _). rewrite EA in B. destruct (C EA) as [r Hr].
       pose proof (Hfix s B _ _ _ Hr) as F. rewrite E in F. apply D. exact F.
     - intros (A & B & C). split; [apply Jk_acas; [ow|auto]|]. split; [apply stab_acas; exact B|].
